@@ -385,6 +385,7 @@ end Aux
     the installation guard (never false: two rows are unconditional), distinct header names, and the probe's field table -/
 theorem table_shape :
     encodingsRecognised = true ∧ stampsAll = true ∧ cacheControlOnOptions = true ∧ installedIfNonEmpty = true
+    ∧ probeStateless = true
     ∧ encodingOrder = [encName .zstd, encName .gzip]
     ∧ table.any (fun r => r.conds.isEmpty) = true
     ∧ table.map (·.header) =
@@ -398,7 +399,7 @@ theorem table_shape :
          ("upload_url_support", Spec.hUploadUrlSupport, .isTrue), ("max_upload_bytes", Spec.hMaxUploadBytes, .optInt),
          ("supported_encodings", Spec.hSupportedEncodings, .encodings), ("sticky_enabled", Spec.hStickyEnabled, .isTrue),
          ("sticky_default_ttl", Spec.hStickyDefaultTtl, .optInt), ("sticky_echo_headers", Spec.hStickyEchoHeaders, .names)] := by
-  refine ⟨rfl, rfl, rfl, rfl, rfl, by decide, rfl, rfl⟩
+  refine ⟨rfl, rfl, rfl, rfl, rfl, rfl, by decide, rfl, rfl⟩
 
 /-- **C40_exact** — for every configuration and every header name: the capability dict built by `make_wsgi_app` carries the
     header iff the documented table says so, with the documented value (absent for every other name) -/
@@ -439,7 +440,7 @@ theorem C40_exact (cfg : Cfg) (h : List Char) : lookupExact (capHeaders cfg) h =
       intro r hr
       have : r.header ∈ Spec.capNames := by
         have := List.mem_map_of_mem (f := (·.header)) hr
-        rw [table_shape.2.2.2.2.2.2.1] at this
+        rw [table_shape.2.2.2.2.2.2.2.1] at this
         simp only [Spec.capNames, List.mem_cons, List.mem_nil_iff, or_false] at this ⊢
         rcases this with h | h | h | h | h | h | h | h | h | h | h | h <;> simp [h]
       intro he
